@@ -307,8 +307,12 @@ fn run_seq(conc: bool, body: &str) -> String {
                                 next_class += 1;
                                 next_class - 1
                             });
+                        let strong = match &h {
+                            Handle::Seq(rc) => Rc::strong_count(rc),
+                            Handle::Conc(arc) => Arc::strong_count(arc),
+                        };
                         handles.push(Some((h, class)));
-                        format!("h{}=m{}", handles.len() - 1, class)
+                        format!("h{}=m{}/s{}", handles.len() - 1, class, strong)
                     }
                     _ => "bad-op".to_string(),
                 }
